@@ -531,6 +531,35 @@ class SRun:
                 after = vv_of2(o, n) if r1 is not None and r1.typ == "OK" and r2 is not None and r2.typ == "OK" else None
                 if after is not None and after <= before[n]:
                     self.fail("C02.uidvalidity-not-larger-after-recreate", {"how": ep.get("how", "restart")}, f"> {before[n]}", after)
+        # epilogue: an orderly restart changes nothing a client can see -- the subscriptions (LSUB) and the mailbox list with their
+        # UIDVALIDITY / UIDNEXT are read, the server is shut down in an orderly way and started again, and they are read again
+        if self.scn.get("epilogue_restart_same"):
+            def snapshot(o):
+                snap = {}
+                for c_ in ("LSUB", "LIST"):
+                    r_, resps_ = o.do(f'{c_} "" "*"')
+                    names_ = []
+                    for x in resps_:
+                        if x.kind == "untagged" and x.typ == c_ and len(x.data) >= 3:
+                            nm_ = x.data[2]
+                            names_.append(bytes(nm_).decode("latin-1") if isinstance(nm_, (bytes, bytearray)) else str(nm_))
+                    snap[c_] = sorted(names_)
+                for nm_ in snap["LIST"]:
+                    r_, resps_ = o.do(f'STATUS "{nm_}" (MESSAGES UIDNEXT UIDVALIDITY)')
+                    for x in resps_:
+                        if x.kind == "untagged" and x.typ == "STATUS" and len(x.data) == 2:
+                            snap["STATUS " + nm_] = [str(v_) for v_ in x.data[1]]
+                return snap
+
+            o = h.sess("O")
+            o.on_resp = None
+            before = snapshot(o)
+            w.restart()
+            after = snapshot(w.connect("O2"))
+            for k_ in sorted(set(before) | set(after)):
+                if before.get(k_) != after.get(k_):
+                    self.fail("C12.restart-differs", {"what": k_.split(" ")[0]}, before.get(k_), after.get(k_))
+                    break
         sig_obs = (results, final_lists)
         self.env_fired = [e for e, f in zip(env_events, env_fired) if f]
         return npoints, sig_obs, model0
